@@ -38,6 +38,9 @@ def val(v):
     if v["k"] == "int":
         n = int(v["v"])
         return "(VInt %d%%Z)" % n if n >= 0 else "(VInt (%d)%%Z)" % n
+    if v["k"] == "float":
+        import struct
+        return "(VFloat %d)" % struct.unpack(">Q", struct.pack(">d", float(v["v"])))[0]
     return "(VStr %s)" % coq_hex(hexs(v.get("v", "")))
 
 
